@@ -85,6 +85,7 @@ func checkC02(c *Ctx) {
 	r.Rule("R02b", "every dispatching path has bound path and query parameters; binder failures end in an error response and return", 4)
 	r.Rule("R02c", "violations built by the URL binders name the bound field", 4)
 	r.Rule("R02f", "conversion table: kind ↔ strconv parser ↔ bit size ↔ protoreflect constructor", 8)
+	r.Rule("R02g", "a query parameter is left unbound only when its key is absent from the URL", 2)
 	r.Rule("R02d", "TS server: query binding for every verb; path merge after body parse", 2)
 	r.Rule("R02e", "OpenAPI: query parameters declared for every verb", 1)
 
@@ -131,6 +132,7 @@ func checkC02(c *Ctx) {
 	}
 	// sanity: the summaries see the binders as writers and the body binder as resetter
 	wP := eff.Has(objOf(ep, "bindPathParams"), EffWrite, 1)
+	c02Presence(c, ep)
 	wQ := eff.Has(objOf(ep, "bindQueryParams"), EffWrite, 1)
 	rB := eff.Has(objOf(ep, "bindDataBasedOnContentType"), EffReset, 1)
 	if !wP || !wQ || !rB {
@@ -471,4 +473,61 @@ func checkTSQueryBinding(c *Ctx) {
 		"the TS server parses query-annotated fields only when the verb has no body (emitter is under `"+underVerb+"`): POST /x?f=1 with f annotated as query never reaches the handler")
 	r.Check(mergeCall.Pos() > bodyCall.Pos() && mergeCall.Pos() > qCall.Pos(), "R02d", "ts-server: path parameters are merged after the body / query object is built", c.P.Pos(mergeCall.Pos()),
 		"path parameters are merged before the request object is built: the body parse overwrites them")
+}
+
+// c02Presence: R02g — a URL parameter is skipped only when it is absent.
+func c02Presence(c *Ctx, ep *EmittedPkg) {
+	r := c.R
+	fd := ep.Funcs["bindQueryParams"]
+	if fd == nil {
+		r.Unres("R02g", "bindQueryParams", "", "not emitted")
+		return
+	}
+	n := 0
+	ast.Inspect(fd.Body, func(nd ast.Node) bool {
+		rs, ok := nd.(*ast.RangeStmt)
+		if !ok || types.ExprString(rs.X) != "params" {
+			return true
+		}
+		for _, st := range rs.Body.List {
+			ifs, ok := st.(*ast.IfStmt)
+			if !ok {
+				continue
+			}
+			skips := false
+			ast.Inspect(ifs.Body, func(m ast.Node) bool {
+				if b, ok := m.(*ast.BranchStmt); ok && b.Tok == token.CONTINUE {
+					skips = true
+				}
+				return true
+			})
+			if !skips {
+				continue
+			}
+			n++
+			cond := types.ExprString(ifs.Cond)
+			okCond := false
+			// len(values) == 0 where values := query[param.QueryName]
+			if be, ok := ast.Unparen(ifs.Cond).(*ast.BinaryExpr); ok && be.Op == token.EQL {
+				if call, ok := be.X.(*ast.CallExpr); ok && types.ExprString(call.Fun) == "len" && types.ExprString(be.Y) == "0" && len(call.Args) == 1 {
+					if id, ok := call.Args[0].(*ast.Ident); ok {
+						if d := localDef(ep.Info, fd.Body, id); d != nil {
+							if ix, ok := d.(*ast.IndexExpr); ok {
+								if t := ep.Info.TypeOf(ix.X); t != nil && strings.HasSuffix(t.String(), "url.Values") {
+									okCond = true
+								}
+							}
+						}
+					}
+				}
+				if isNilIdent(be.Y) {
+					okCond = true // unknown field: nothing to bind
+				}
+			}
+			r.Check(okCond, "R02g", "bindQueryParams skips a parameter only under: "+cond, ep.GenPos(ifs.Pos()),
+				fmt.Sprintf("bindQueryParams leaves a query parameter unbound when `%s`: that is not an absence test on the values of the key (len(query[name]) == 0), so a parameter that is present with an empty value (?page=) is treated as not supplied — an unparsable value is dispatched as zero instead of answered with 400, and a required empty string is reported missing", cond))
+		}
+		return true
+	})
+	r.Check(n >= 1, "R02g", "bindQueryParams has an absence test", ep.GenPos(fd.Pos()), "no skip condition found in the parameter loop")
 }
